@@ -63,6 +63,9 @@ type c14Spec struct {
 	// (already carrying 90 signature lines of other witnesses: ~9 KiB), "ext"
 	// (70 KiB of extension lines). Both are legitimate notes.
 	Note string `json:"note"`
+	// Flavour: the stub log's flavour when it differs from the feeder type
+	// ("rekor-inactive": the configured tree is an inactive shard).
+	Flavour string `json:"flavour"`
 	Scratch   string  `json:"scratch"`
 }
 
@@ -122,8 +125,12 @@ func c14Worker(args []string) int {
 	var bodyOf func(origin string, size int, b *uni.Branch) string
 	const N = 65537
 	u := uni.New(ev.Seed(), N, []int{0})
-	mainSrv := stublog.New(spec.Feeder, u.Main)
-	forkSrv := stublog.New(spec.Feeder, u.Forks[0])
+	flavour := spec.Feeder
+	if spec.Flavour != "" {
+		flavour = spec.Flavour
+	}
+	mainSrv := stublog.New(flavour, u.Main)
+	forkSrv := stublog.New(flavour, u.Forks[0])
 	var logs []*c14Log
 	byHost := hostMux{m: map[string]*stublog.Server{}}
 	byID := map[string]*c14Log{}
@@ -142,7 +149,7 @@ func c14Worker(args []string) int {
 			l.url = "http://" + host + "/?treeID=1"
 		}
 		l.id = uni.ID(l.origin)
-		l.srv = &stublog.Server{Flavour: spec.Feeder, Branch: u.Main, Hashes: mainSrv.Hashes, TreeID: "1"}
+		l.srv = &stublog.Server{Flavour: flavour, Branch: u.Main, Hashes: mainSrv.Hashes, TreeID: "1"}
 		// Nothing published yet: the checkpoint endpoint answers 404.
 		l.srv.Answer = func(int, string) string { return "http-404" }
 		byHost.m[host] = l.srv
@@ -546,6 +553,9 @@ func c14(tier string) int {
 	for _, ft := range []string{"serverless", "pixel", "rekor"} {
 		jobs = append(jobs, job{c14Spec{Mode: "running", Storage: "mem", Feeder: ft, Schedules: all, Fork: true}, ft + "/running/mem"})
 	}
+	// Rekor once more with the configured tree being an INACTIVE shard (as two
+	// of the three shipped Rekor entries are).
+	jobs = append(jobs, job{c14Spec{Mode: "running", Storage: "mem", Feeder: "rekor", Flavour: "rekor-inactive", Schedules: all, Fork: true}, "rekor-inactive/running/mem"})
 	// The same with checkpoints as large as real ones get: a log that publishes
 	// checkpoints already cosigned by 90 other witnesses (~9 KiB) and one that
 	// signs 70 KiB of extension lines.
@@ -614,9 +624,9 @@ func c14(tier string) int {
 			checks += int64(r.Checks)
 			run.Add("waits_beyond_the_expected_completion_event", int64(r.LateCatchUps))
 			steps += int64(r.Steps)
-			run.Hist("scenarios", j.spec.Feeder+"/"+j.spec.Mode+"/"+j.spec.Storage+map[bool]string{true: "/" + j.spec.Note}[j.spec.Note != ""])
+			run.Hist("scenarios", j.spec.Feeder+map[bool]string{true: "(" + j.spec.Flavour + ")"}[j.spec.Flavour != ""]+"/"+j.spec.Mode+"/"+j.spec.Storage+map[bool]string{true: "/" + j.spec.Note}[j.spec.Note != ""])
 			for _, s := range j.spec.Schedules {
-				run.Distinct(fmt.Sprintf("%s/%s/%s/%v/%s", j.spec.Feeder, j.spec.Mode, j.spec.Storage, s, j.spec.Note))
+				run.Distinct(fmt.Sprintf("%s%s/%s/%s/%v/%s", j.spec.Feeder, j.spec.Flavour, j.spec.Mode, j.spec.Storage, s, j.spec.Note))
 			}
 			for _, p := range r.Problems {
 				run.Report(fmt.Sprintf("%s feeder=%s mode=%s storage=%s%s", p.Signature, j.spec.Feeder, j.spec.Mode, j.spec.Storage, map[bool]string{true: " published-checkpoints=" + j.spec.Note}[j.spec.Note != ""]), p.What,
@@ -631,7 +641,7 @@ func c14(tier string) int {
 	run.Set("served_checkpoint_checks", checks)
 	run.Set("steps", steps)
 	run.Set("exhaustive", true)
-	run.Set("rule", fmt.Sprintf("omniwitness.Main is run for real (generated ConfigLogs, listener on 127.0.0.1:0, outbound HTTP answered by in-process stub log servers generated from a 65537-leaf tree) for ALL strictly increasing growth schedules of length <= %d over sizes %v followed by a fork step: feeder type tiles follows every schedule at once (one configured log per schedule) in {running: 400 ms polling, in-memory and SQLite} and {restart between every step: one feed cycle per start, SQLite file}; feeder types serverless, pixel and rekor follow every schedule at once on the running in-memory service; feeder type sumdb (its origin line is fixed, so one log per process) runs a covering subset in the quick tier and every schedule in the thorough tier. Both feeder types also follow logs whose checkpoints are large (already cosigned by 90 other witnesses, ~9 KiB; 70 KiB of extension lines). After each growth the service's HTTP GET checkpoint must be the log's head, cosigned, after 3 complete poll cycles (cycle completion observed at the stub, not timed) / after the single cycle of a restart (write-handle close observed by wrapping the persistence); after the fork step it must still be the last checkpoint of the witnessed history. distinct_nontrivial = distinct (feeder, mode, storage, schedule)", maxLen, c14Sizes))
+	run.Set("rule", fmt.Sprintf("omniwitness.Main is run for real (generated ConfigLogs, listener on 127.0.0.1:0, outbound HTTP answered by in-process stub log servers generated from a 65537-leaf tree) for ALL strictly increasing growth schedules of length <= %d over sizes %v followed by a fork step: feeder type tiles follows every schedule at once (one configured log per schedule) in {running: 400 ms polling, in-memory and SQLite} and {restart between every step: one feed cycle per start, SQLite file}; feeder types serverless, pixel and rekor (the configured tree active, and as an inactive shard) follow every schedule at once on the running in-memory service; feeder type sumdb (its origin line is fixed, so one log per process) runs a covering subset in the quick tier and every schedule in the thorough tier. Both feeder types also follow logs whose checkpoints are large (already cosigned by 90 other witnesses, ~9 KiB; 70 KiB of extension lines). After each growth the service's HTTP GET checkpoint must be the log's head, cosigned, after 3 complete poll cycles (cycle completion observed at the stub, not timed) / after the single cycle of a restart (write-handle close observed by wrapping the persistence); after the fork step it must still be the last checkpoint of the witnessed history. distinct_nontrivial = distinct (feeder, mode, storage, schedule)", maxLen, c14Sizes))
 	run.Assumption("goroutine interleavings and timer races inside Main are not enumerated; the scenario space is. Safety deadlines (90 s / 40 s per step, >= 100x the normal latency) only end a broken build")
 	// Addressing leg: the schedules above stay below 65 538 leaves; the tile
 	// paths the sumdb feeder will ask for in larger trees (indices up to 10^9,
